@@ -1,0 +1,15 @@
+//go:build verif
+
+package prolog
+
+//@ ---------------------------------------------------------------- how an uncaught ball reaches the caller (C04)
+//@ -- Exec / ExecContext return what engine.(*VM).Compile returned, unchanged; Compile and directive return the error Force
+//@ -- returned for an initialization goal / a directive, unchanged; Force returns the error no handler accepted, unchanged
+//@ -- (engine/verif_contracts.go: (*Promise).Force, (*promiseStack).recover). QueryContext's producer records the error of
+//@ -- Force in Solutions.err, which Solutions.Err returns.
+//@ --
+//@ -- The contracts of (*Interpreter).ExecContext and (*Interpreter).Exec that say this were delivered by topic c20init
+//@ -- (verif_contracts_c20init.go: `called(cerr) && result == cerr`, Compile called on &i.VM with the caller's context, text and
+//@ -- arguments) while this topic was being worked on; a second contract for the same function is an error, so this file adds
+//@ -- none: C04 is added to the property lines of those two stanzas and of (*Interpreter).QueryContext$1 (see additions.md,
+//@ -- section 2), which makes their obligations part of `govc check C04`.
